@@ -16,6 +16,7 @@ type Decision struct {
 	Kind   byte   // 'b' branch, 'c' concretisation, 'n' plain choice
 	V      uint64 // chosen value
 	Forced bool   // no alternative was feasible (nothing to assert on replay)
+	Site   string // debugging aid (only with tracing)
 }
 
 type nondetRec struct {
@@ -101,6 +102,7 @@ type Explorer struct {
 	forkSites  map[string]int
 	opaque     map[string]int
 	assertQueries, assertUnsat int64
+	retried    int64
 }
 
 type ExploreOpts struct {
@@ -285,8 +287,29 @@ func (p *Path) assert(t *Term) {
 }
 
 func (p *Path) record(d Decision) {
+	if p.ex.opts.Trace && d.Site == "" {
+		d.Site = p.curSite()
+	}
 	p.trace = append(p.trace, d)
 	p.pos++
+}
+
+func (p *Path) curSite() string {
+	if p.sched != nil && p.sched.cur != nil && p.sched.cur.curFr != nil {
+		return p.sched.cur.curFr.stableSite()
+	}
+	return "?"
+}
+
+func (p *Path) diverge(want Decision, asks string) {
+	msg := fmt.Sprintf("engine: replay divergence: expected %c decision at %d, harness asks %s", want.Kind, p.pos, asks)
+	if p.ex.opts.Trace {
+		msg += fmt.Sprintf("\n  recorded site: %s\n  current site:  %s\n  trace so far:", want.Site, p.curSite())
+		for i, d := range p.trace {
+			msg += fmt.Sprintf("\n   %d %c %d forced=%v %s", i, d.Kind, d.V, d.Forced, d.Site)
+		}
+	}
+	panic(msg)
 }
 
 func (p *Path) sibling(d Decision) {
@@ -333,7 +356,7 @@ func (p *Path) decideBool(c *Term) bool {
 	if p.pos < len(p.prefix) {
 		d := p.prefix[p.pos]
 		if d.Kind != 'b' {
-			panic(fmt.Sprintf("engine: replay divergence: expected %c decision at %d, harness asks bool", d.Kind, p.pos))
+			p.diverge(d, "bool")
 		}
 		val = d.V != 0
 		if !d.Forced {
@@ -345,20 +368,20 @@ func (p *Path) decideBool(c *Term) bool {
 		}
 		p.record(d)
 	} else {
-		r1 := p.sol.CheckAssuming(c)
+		r1 := p.feasible(c)
 		switch r1 {
 		case Unsat:
 			val = false
-			p.record(Decision{'b', 0, true})
+			p.record(Decision{Kind: 'b', V: 0, Forced: true})
 		default:
 			if r1 == Unknown {
 				p.ex.noteUnknown()
 			}
 			nc := p.ts.Not(c)
-			r2 := p.sol.CheckAssuming(nc)
+			r2 := p.feasible(nc)
 			if r2 == Unsat {
 				val = true
-				p.record(Decision{'b', 1, true})
+				p.record(Decision{Kind: 'b', V: 1, Forced: true})
 			} else {
 				if r2 == Unknown {
 					p.ex.noteUnknown()
@@ -367,10 +390,10 @@ func (p *Path) decideBool(c *Term) bool {
 				if p.ex.opts.Trace && p.ex.stats.Forks < 400 && p.sched.cur.curFr != nil && strings.Contains(p.sched.cur.curFr.fn.String(), os.Getenv("FORKDBG")) {
 					println("FORK on", c.String())
 				}
-				p.sibling(Decision{'b', 0, false})
+				p.sibling(Decision{Kind: 'b', V: 0, Forced: false})
 				val = true
 				p.assert(c)
-				p.record(Decision{'b', 1, false})
+				p.record(Decision{Kind: 'b', V: 1, Forced: false})
 			}
 		}
 	}
@@ -399,7 +422,7 @@ func (p *Path) concretize(t *Term) uint64 {
 	if p.pos < len(p.prefix) {
 		d := p.prefix[p.pos]
 		if d.Kind != 'c' {
-			panic(fmt.Sprintf("engine: replay divergence: expected %c decision at %d, harness asks concretize", d.Kind, p.pos))
+			p.diverge(d, "concretize")
 		}
 		val = d.V
 		if !d.Forced {
@@ -441,13 +464,13 @@ func (p *Path) concretize(t *Term) uint64 {
 		sort.Slice(vals, func(i, j int) bool { return vals[i] < vals[j] })
 		forced := len(vals) == 1
 		for _, v := range vals[1:] {
-			p.sibling(Decision{'c', v, false})
+			p.sibling(Decision{Kind: 'c', V: v, Forced: false})
 		}
 		val = vals[0]
 		if !forced {
 			p.assert(p.ts.Eq(t, p.ts.Const(t.w, val)))
 		}
-		p.record(Decision{'c', val, forced})
+		p.record(Decision{Kind: 'c', V: val, Forced: forced})
 	}
 	p.bound[t] = val
 	return val
@@ -461,15 +484,15 @@ func (p *Path) choose(n int) int {
 	if p.pos < len(p.prefix) {
 		d := p.prefix[p.pos]
 		if d.Kind != 'n' {
-			panic(fmt.Sprintf("engine: replay divergence: expected %c decision at %d, harness asks choice", d.Kind, p.pos))
+			p.diverge(d, "choice")
 		}
 		p.record(d)
 		return int(d.V)
 	}
 	for i := 1; i < n; i++ {
-		p.sibling(Decision{'n', uint64(i), false})
+		p.sibling(Decision{Kind: 'n', V: uint64(i), Forced: false})
 	}
-	p.record(Decision{'n', 0, false})
+	p.record(Decision{Kind: 'n', V: 0, Forced: false})
 	return 0
 }
 
@@ -481,7 +504,27 @@ func (p *Path) feasible(c *Term) SatResult {
 		}
 		return Unsat
 	}
-	return p.sol.CheckAssuming(c)
+	r := p.sol.CheckAssuming(c)
+	if r == Unknown {
+		r = p.retryUnknown(c)
+	}
+	return r
+}
+
+// retryUnknown re-decides a query the incremental solver gave up on, in fresh
+// one-shot solver processes (z3, then z3-new, then cvc5) with a longer limit.
+func (p *Path) retryUnknown(c *Term) SatResult {
+	all := append(append([]*Term{}, p.pc...), c)
+	to := 4 * p.ex.opts.SolverTimeout
+	for _, bin := range []string{"z3", "z3-new", "cvc5"} {
+		if r := StandaloneCheck(bin, all, to); r != Unknown {
+			p.ex.mu.Lock()
+			p.ex.retried++
+			p.ex.mu.Unlock()
+			return r
+		}
+	}
+	return Unknown
 }
 
 func (p *Path) newVar(w uint8, kind string) *Term {
